@@ -28,6 +28,7 @@ Core Lean + `Std.Data.HashMap` (toolchain library, used only by the line-protoco
 -/
 import CBV.Model.Common
 import CBV.Gen.Tables
+import CBV.Model.C13Driver
 import Std.Data.HashMap
 
 namespace CBV.C13
@@ -289,8 +290,6 @@ def sketchPositions (quads : List (List Nat)) (faces : List (List P)) : Option (
 
 /-! ### the tolerance criterion of `IterationDriver.converged` over ℚ -/
 
-def vsmall : Rat := 1 / 1000000
-
 /-- `IterationData.improvement` -/
 def iterImprovement (h : Rat × Rat) : Rat :=
   if (if h.1 - h.2 < 0 then h.2 - h.1 else h.1 - h.2) < vsmall then vsmall else h.1 - h.2
@@ -533,6 +532,8 @@ def handle (op : String) (args : List String) : Option String :=
   match op with
   | "c13.opt" => handleOpt args
   | "c13.setup" => handleSetup args
+  | "c13.driver" => handleDriver args
+  | "c13.reporter" => handleReporter args
   | _ => none
 
 end CBV.C13
